@@ -197,7 +197,7 @@ QVector<ObjectType> buildTypes()
         using T = QXmppEntityTimeIq;
         r << makeType<T>("QXmppEntityTimeIq", {
             F_STR(T, "id", setId, id),
-            F_CUSTOM(T, "tzo", "int", SETL({ static const int t[] = { 0, 3600, -3600, 19800, -34200, 50400, -43200, 60 }; if (!o.utc().isValid()) o.setUtc(qxvfields::dateTimes()[0]); o.setTzo(t[v.idx % 8]); }), GETL(return QString::number(o.tzo()))),
+            F_CUSTOM(T, "tzo", "int", SETL({ const auto &t = qxvfields::tzOffsets(); if (!o.utc().isValid()) o.setUtc(qxvfields::dateTimes()[0]); o.setTzo(t[v.idx % t.size()]); }), GETL(return QString::number(o.tzo()))),
             F_DT(T, "utc", setUtc, utc),
         }, [](T &o) { o.setType(QXmppIq::Result); });
     }
@@ -848,7 +848,17 @@ QJsonObject scalarChecks()
             fail("datetime", s, qxvfields::dt2s(back));
         }
     }
-    for (const auto &s : QStringList { "2023-05-17T12:34:56Z", "2023-05-17T12:34:56.789Z", "2023-05-17T14:34:56+02:00", "2023-05-17T12:34:56.5Z" }) {
+    // time-zone designators: every boundary of the components of (+|-)hh:mm
+    for (int tz : qxvfields::tzOffsets()) {
+        n++;
+        const auto s = QXmppUtils::timezoneOffsetToString(tz);
+        const int back = QXmppUtils::timezoneOffsetFromString(s);
+        if (back != tz) {
+            fail("timezoneOffset", s + QStringLiteral(" (") + QString::number(tz) + QStringLiteral(" s)"), QString::number(back));
+        }
+    }
+    for (const auto &s : QStringList { "2023-05-17T12:34:56Z", "2023-05-17T12:34:56.789Z", "2023-05-17T14:34:56+02:00", "2023-05-17T12:34:56.5Z",
+                                       "2023-05-17T07:04:56-05:30", "2023-05-17T12:04:56.001-00:30", "1999-12-31T23:59:59.999-12:00", "2024-02-29T00:00:00.000+14:00" }) {
         n++;
         auto dt = QXmppUtils::datetimeFromString(s);
         auto again = QXmppUtils::datetimeFromString(QXmppUtils::datetimeToString(dt));
